@@ -47,7 +47,7 @@ CCalls(s) ==
        \cup {[op |-> "UnsetLogLevel", args |-> <<x>>] : x \in {y \in CLvArgs : ~y.all}} ELSE {})
   \cup (IF "closures" \in CFams THEN
             {[op |-> "SetValidityPolicy", mode |-> m] : m \in {"none", "ok", "bad"}}
-       \cup {[op |-> "SetPresentationPolicy", on |-> b] : b \in BOOLEAN} ELSE {})
+       \cup {[op |-> o, on |-> b] : o \in {"SetPresentationPolicy", "SetEqualityPolicy", "SetUnmarshaler", "SetEvaluator"}, b \in BOOLEAN} ELSE {})
 
 CTrans(s) == {LET r == CStep(s, c) IN [c |-> c, on |-> "st", ret |-> r.ret, s |-> r.s] : c \in CCalls(s)}
 
@@ -91,9 +91,20 @@ COptInd(s, t) ==
 \* C17: a dead Condition stays dead except through Init (and Cond, a constructor)
 CInert(s, t) == (~s.live /\ t.c.op \notin {"Init", "Cond"}) => t.s = s
 
+\* C14 on Conditions: an installed closure decides what its method returns, removing it restores the built-in behaviour,
+\* and a closure setter touches nothing but its own slot
+CClosures(s, t) ==
+  LET NoCl(x) == [x EXCEPT !.ppol = FALSE, !.epol = FALSE, !.upol = FALSE, !.evpol = FALSE] IN
+  (t.c.op \in {"SetPresentationPolicy", "SetEqualityPolicy", "SetUnmarshaler", "SetEvaluator"} /\ s.live /\ ~CRO(s)) =>
+     /\ NoCl(t.s) = NoCl(s)
+     /\ LET o == CObs(t.s) IN
+        /\ (t.c.op = "SetEqualityPolicy" => o.eqsrc = IF t.c.on THEN "closure" ELSE "builtin")
+        /\ (t.c.op = "SetUnmarshaler" => o.umsrc = IF t.c.on THEN "closure" ELSE "builtin")
+        /\ (t.c.op = "SetEvaluator" => o.evsrc = IF t.c.on THEN "closure" ELSE "error")
+
 CStepProps ==
   /\ ValidGatesString(st) /\ ValidDef(st)
-  /\ \A t \in CTrans(st) : Holds(st, t) /\ CROFrame(st, t) /\ CNoNest(st, t) /\ COptInd(st, t) /\ CInert(st, t)
+  /\ \A t \in CTrans(st) : Holds(st, t) /\ CROFrame(st, t) /\ CNoNest(st, t) /\ COptInd(st, t) /\ CInert(st, t) /\ CClosures(st, t)
 
 CTypeOK == st.live \in BOOLEAN /\ st.opts \subseteq CFlags /\ st.err \in {"none", "set"}
 
